@@ -45,13 +45,17 @@ def _pool():
     k = sympy.Symbol("k")
     cust = CustomGateDefinition("cg", sympy.Matrix([[sympy.cos(a), -sympy.sin(b)], [sympy.sin(b) * sympy.exp(sympy.I * a), sympy.cos(a)]]), (a, b))
     base = {
-        "RX(a)": RX(a), "RZ(a*b+1)": RZ(a * b + 1), "RX(2*a+b)": RX(2 * a + b), "RZ(a-b+c)": RZ(a - b + c), "U3(a,b,c)": U3(a, b, c), "U3(a,0.3,a+b)": U3(a, 0.3, a + b), "XY(2*c)": XY(2 * c), "CPHASE(a/2)": CPHASE(a / 2),
+        "RX(a)": RX(a), "RZ(a*b+1)": RZ(a * b + 1), "RX(2*a+b)": RX(2 * a + b), "RZ(a-b+c)": RZ(a - b + c),
+        # single-symbol parameters that are NOT linear in the symbol (products, quotients, functions, powers)
+        "RX(3*a**2)": RX(3 * a ** 2), "RZ(2*cos(a))": RZ(2 * sympy.cos(a)), "RX(2/a)": RX(2 / a), "RZ(a*exp(a))": RZ(a * sympy.exp(a)), "RX(a*(a+1))": RX(a * (a + 1)),
+        "RZ(pi*b**3/4)": RZ(sympy.pi * b ** 3 / 4), "RX(2*sqrt(a))": RX(2 * sympy.sqrt(a)), "RZ(-a)": RZ(-a), "RX(a/3)": RX(a / 3), "U3(a,b,c)": U3(a, b, c), "U3(a,0.3,a+b)": U3(a, 0.3, a + b), "XY(2*c)": XY(2 * c), "CPHASE(a/2)": CPHASE(a / 2),
         "custom(c, a+d)": cust(c, a + d), "custom(0.5, b)": cust(0.5, b), "RX(Sum)": RX(sympy.Sum(a * k, (k, 1, 3))), "RX(1.5)": RX(1.5), "X": X,
     }
     wrappers = {"id": lambda g: g, "c1": lambda g: g.controlled(1), "dag": lambda g: g.dagger, "c2.dag": lambda g: g.controlled(2).dagger, "dag.c1": lambda g: g.dagger.controlled(1)}
     maps = {
         "total-numeric": {a: 0.3, b: -1.2, c: 2.0, d: 0.7}, "partial": {a: 0.3}, "superfluous": {a: 0.3, sympy.Symbol("zz"): 9.0}, "empty": {},
         "symbolic-values": {a: d + 1, b: 2 * c}, "only-others": {sympy.Symbol("zz"): 1.0},
+        "chained-symbolic": {a: 2 * d, b: d ** 2},
         "zero-int": {a: 0, b: -1.2, c: 0}, "zero-float": {a: 0.0, d: 0.0}, "zero-sympy": {a: sympy.Integer(0), b: sympy.Float(0), c: sympy.S.Zero, d: 0},
         "negative-and-one": {a: -1, b: 1, c: -2, d: 1.0},
     }
@@ -184,6 +188,26 @@ def _check_circuit(i):
     r = ResetOperation(2)
     if r.bind({a: 1.0}).qubit_indices != (2,) or list(r.free_symbols) or r.replace_params(()).qubit_indices != (2,):
         return False, "ResetOperation.bind / replace_params does not return a reset on the same qubit"
+    # symbols carrying assumptions and Dummy symbols are symbols like any other: binding through the circuit equals binding each gate
+    special = [sympy.Symbol("r", real=True), sympy.Symbol("p", positive=True), sympy.Symbol("nn", nonnegative=True), sympy.Dummy("dmy"), sympy.Symbol("i", integer=True)]
+    vals = [0.3, 1.7, 0.0, -0.6, 2]
+    cs = Circuit([RX(special[0])(0), U3(special[1], 2 * special[2], special[3] + special[0])(1), RZ(special[4] * special[1])(0), MultiPhaseOperation((special[0], special[3]))], n_qubits=2)
+    full = dict(zip(special, vals))
+    bs = cs.bind(full)
+    if bs.free_symbols:
+        return False, f"total binding of symbols with assumptions / Dummy symbols through Circuit.bind left free symbols {bs.free_symbols}"
+    for ob, oc in zip(bs.operations, cs.operations):
+        if ob != oc.bind(full):
+            return False, f"Circuit.bind differs from binding the operation itself for {oc}"
+    half = cs.bind({special[0]: 0.3, special[3]: -0.6})
+    if set(half.free_symbols) != {special[1], special[2], special[4]} or half.bind({special[1]: 1.7, special[2]: 0.0, special[4]: 2}) != bs:
+        return False, "partial then total binding of symbols with assumptions differs from binding once"
+    # two-step binding through a symbolic value: t -> 2*s, then s -> number
+    s_, t_ = sympy.symbols("s t")
+    for expr, val in ((t_ ** 2, (2 * 0.35) ** 2), (3 * t_ ** 2, 3 * (2 * 0.35) ** 2), (2 * sympy.cos(t_), 2 * float(sympy.cos(0.7))), (t_ / 3, 0.7 / 3)):
+        g2 = RX(expr).bind({t_: 2 * s_}).bind({s_: 0.35})
+        if g2.free_symbols or abs(complex(g2.params[0]) - val) > 1e-12:
+            return False, f"RX({expr}): binding t -> 2*s then s -> 0.35 gives parameters {g2.params}, expected {val}"
     bound_var = RX(sympy.Sum(a * sympy.Symbol("k"), (sympy.Symbol("k"), 1, 3)))
     if list(bound_var.free_symbols) != [a] or Circuit([bound_var(0)]).bind({a: 0.5}).free_symbols:
         return False, f"a bound summation variable is reported as a free symbol: {bound_var.free_symbols}"
